@@ -12,6 +12,6 @@ import (
 func init() {
 	c17.RedisCfgFault = redisCfgFault
 	registry["C17"] = entry{run: c17.Run, replay: func(r *monitor.Run, d json.RawMessage) { c17.Replay(r, d) }, level: "exploration",
-		rule: "cases = generated distributions of subscriptions (plain, wildcard, $-topics, share groups g1/g2 spanning nodes, nodes without any subscription) over three in-process nodes federated through real serf/gRPC, then 20-30 unique publishes from any node (QoS0-2, retained, retained clears) after the views have converged, closed by per-node sentinels; checked: applied message events per node (forwarded once to every node with a matching non-shared subscription, never to a node without any match, never back to the origin, never re-forwarded, retained to all), copies received by every MQTT subscriber (exactly one per client with a matching non-shared subscription at min QoS; exactly one member per share group in the whole federation, attributed by subscription identifiers), retained stores of all nodes. Every scenario is non-trivial; distinct by scenario.",
+		rule: "cases = generated distributions of subscriptions (plain, wildcard, $-topics, share groups g1/g2 spanning nodes, nodes without any subscription) over three in-process nodes federated through real serf/gRPC, then 20-30 unique publishes from any node (QoS0-2, retained, retained clears) after the views have converged, closed by per-node sentinels; checked: applied message events per node (forwarded once to every node with a matching non-shared subscription, never to a node without any match, never back to the origin, never re-forwarded, retained to all), copies received by every MQTT subscriber (exactly one per client with a matching non-shared subscription at min QoS; exactly one member per share group in the whole federation, attributed by subscription identifiers), retained stores of all nodes. Every scenario is non-trivial; distinct by scenario. Plus: publications as will messages, a directed spanning-group scenario, a session that ends while redis refuses a clean-up command, stored sessions replaced without re-subscribing, messages with non-UTF-8 Correlation Data and 5 MiB payloads.",
 		assumptions: []string{"federation views have converged before publishing (logical barrier on the views)", "per-peer event streams are FIFO (sentinel barrier)", "which member / node serves a share group is free"}}
 }
